@@ -7,9 +7,9 @@
 (* period.                                                                                                      *)
 From Coq Require Import Lqa Lia Permutation.
 From LCM Require Import Base.Prelude Base.Arr Base.ArrOps Model.Dispatchers Model.DispatchersG Model.FunctionRepresentation
-                        Gen.DiscreteNoShocks Gen.CCV Gen.ModelFunctions Gen.EntryPoint.
+                        Gen.DiscreteNoShocks Gen.CCV Gen.ModelFunctions Gen.EntryPoint Gen.ChoiceAxes Gen.SolveDiscrete.
 From LCM Require Import Spec.Lang Spec.Bellman Proofs.ArrLemmas Proofs.ArrLemmas2 Proofs.C14_Refine Proofs.C14_OnLayout
-                        Proofs.C01_EntryPoint Proofs.C01_Compose Proofs.C01_MaxCompose Proofs.C01_Period.
+                        Proofs.C18_AxesFilterFree Proofs.C01_EntryPoint Proofs.C01_Compose Proofs.C01_MaxCompose Proofs.C01_Period.
 Local Open Scope nat_scope.
 
 (* ---- the array of a period read as a table indexed in declaration order ------------------------------------ *)
@@ -87,6 +87,8 @@ Hypothesis Hperm : Permutation (dch ++ cch) (choices m).
 Hypothesis Hnd : NoDup (map fst (choices m)).
 Hypothesis Hnds : NoDup (map fst sts).
 Hypothesis Hvalid : grids_valid sts.
+(* states and choices have different names *)
+Hypothesis Hnames : NoDup (map fst (dst ++ dch ++ cst ++ cch)).
 
 (* utility_and_feasibility of period t at scalar arguments, given the array of the next period *)
 Definition uf_code_arr (t : nat) (vf : qarr) (vals : list Q) : val * bool :=
@@ -103,21 +105,26 @@ Definition the_create_ccv (uf : T_uf) : T_ccv := fun vf => ccv_point dst dch cst
 Definition the_scp (_ : unit) (ccv : T_ccv) (_ : unit) (vf : option (arr val)) (_ : unit) (_ : unit) : arr val :=
   base_productmapG (ccv vf) (seq 0 (length (gv (dst ++ dch ++ cst))))
                    (map (fun g => vec g) (gv (dst ++ dch ++ cst)) ++ map (fun g => vec g) (gv cch)).
-Definition the_emax (_ : unit) (cc : arr val) (_ : unit) : arr val :=
-  solve_discrete_problem_no_shocks cc (Some (seq (length dst) (length dch))) None tt.
+(* get_solve_discrete_problem (regenerated, Gen/SolveDiscrete.v) on the variable_info of the model: discrete states,
+   discrete choices, continuous states, continuous choices; nothing sparse, nothing auxiliary; no choice segments *)
+Definition T_calc := arr val -> unit -> arr val.
+Definition the_get_sdp (is_last : bool) (_ : unit) : T_calc := get_solve_discrete_problem (vi_of dst dch cst cch) is_last None.
+Definition the_emax (calc : T_calc) (cc : arr val) (_ : unit) : arr val := calc cc tt.
 
 (* what get_lcm_function(model, "solve") returns: the regenerated glue and driver with these components *)
 Definition code_solve : list (arr val) :=
-  lcm_solve unit unit unit unit unit unit T_uf T_ccv unit unit (arr val) (arr val) tt tt tt tt tt
-            (fun _ _ => (tt, tt, tt, tt)) the_get_uf the_create_ccv (fun _ => tt) (fun _ _ => tt) tt tt tt
-            (fun _ _ => scalar VUndef) tt the_scp the_emax n tt.
+  lcm_solve unit unit unit unit unit unit T_uf T_ccv unit T_calc (arr val) (arr val) tt tt tt tt tt
+            (fun _ _ => (tt, tt, tt, tt)) the_get_uf the_create_ccv (fun _ => tt) the_get_sdp tt tt tt
+            (fun _ _ => scalar VUndef) (fun cc _ => cc) the_scp the_emax n tt.
 
 Lemma code_solve_period t : t < n ->
   nth t code_solve (scalar VUndef)
   = V_array dst dch cst cch
       (the_get_uf tt t (t =? n - 1) (if S t =? n then None else Some (nth (S t) code_solve (scalar VUndef)))).
 Proof.
-  intros Ht. unfold code_solve. rewrite lcm_solve_recursion by exact Ht. reflexivity.
+  intros Ht. unfold code_solve. rewrite lcm_solve_recursion by exact Ht. cbn [fst snd].
+  unfold the_emax, the_get_sdp. rewrite (solve_discrete_of_filter_free dst dch cst cch Hnames).
+  exact (V_array_with_the_codes_axes dst dch cst cch _).
 Qed.
 
 Lemma V_array_shape (dst' dch' cst' cch' : list (string * grid)) uf :
